@@ -7,13 +7,14 @@
    Model/TensorDot.v adds the block VALUES of tensordot (block matrix products, summed per result row) to the row / charge
    bookkeeping of TensorOps.v, and np.tensordot on dense arrays as a finite sum (d_tensordot); Model/LabelGrammar.v is the
    grammar of (nested) leg labels as a syntax tree.
-   Model/TakeSlice.v is take_slice on one axis as read from the source (no correspondence stream records take_slice).
+   Model/TakeSlice.v is take_slice on one axis as read from the source (correspondence: stream coq2 of harness/c02.py).
    NOT proved here (checked by the numpy oracle of harness/c01.py only): inner, trace, combine/split_legs,
    general indexing, concatenation, scale_axis, permutations. *)
 From TenpyV Require Import Base.Prelude Model.Charge Model.Tensor Model.TensorOps Model.Labels Model.TensorDot Model.LabelGrammar.
 From TenpyV Require Import Model.TensorDotFilter Model.TakeSlice.
 From TenpyV Require Import Proofs.ChargeP Proofs.TensorP Proofs.TensorP2 Proofs.LabelsP.
 From TenpyV Require Import Proofs.TensorP3 Proofs.TensorDotP Proofs.LabelsP2 Proofs.TensorDotFilterP Proofs.TakeSliceP.
+From TenpyV Require Import Model.TensorProg Proofs.TensorProgP Proofs.TensorProgEx.
 From Coq Require Import Ascii.
 Open Scope Z_scope.
 
@@ -107,7 +108,7 @@ Theorem T01_tensordot_lookup_needs_charge_rule :
   to_ndarray (tensordot_filtered [1] 1 nf_a nf_a) [0%nat; 0%nat] = (0, 0).
 Proof. exact filter_needs_charge_rule. Qed.
 
-(* take_slice(i, axis) on one axis (Model/TakeSlice.v, the algorithm read from the source; NOT correspondence-checked):
+(* take_slice(i, axis) on one axis (Model/TakeSlice.v, the algorithm read from the source; correspondence: stream coq2 of harness/c02.py):
    the result is well-formed and  res[idx] = a[idx with i inserted at position ax] *)
 Theorem T01_take_slice : forall ci ax i a, valid_ci ci -> WF ci a -> (ax < rank a)%nat ->
   (i < ind_len (nth ax (legs a) dleg))%nat ->
@@ -121,6 +122,26 @@ Theorem T01_take_slice_blocksum : forall ci ax i a idx, rows_shape a -> (ax < ra
   (i < ind_len (nth ax (legs a) dleg))%nat -> (ax <= length idx)%nat ->
   dense_sum (take_slice ci ax i a) idx = dense_sum a (insert_at ax i idx).
 Proof. exact take_slice_dense_sum. Qed.
+
+(* ---- COMPOSITIONS (Model/TensorProg.v).  A program is any finite list of instructions over the operations above (transpose, conj,
+   scaling, a + alpha*b, outer, tensordot over k legs, take_slice) and iswapaxes / gauge_total_charge (Props/C02.v: T02_wf_iswapaxes,
+   T02_wf_gauge_total_charge) applied to positions of an environment, each result either appended or overwriting an entry (see Props/C02.v, T02_history, for the well-formedness of every intermediate tensor).
+   d_run interprets the SAME program on dense arrays (shape, function of the multi-index) with the numpy-level definitions only
+   (np.transpose, np.conj, *, +, np.multiply.outer, np.tensordot, D[..., i, ...], np.swapaxes, identity for gauge_total_charge); it never
+   looks at charges, blocks or flags.
+   to_ndarray COMMUTES with running any applicable program from well-formed tensors: every entry of the final (hence of every
+   intermediate) environment has the shape and, at every multi-index with one entry per axis, the value of the dense run (deq). *)
+Theorem T01_program : forall ci prog e, valid_ci ci -> Forall (WF ci) e -> applicable_prog ci prog e ->
+  Forall2 deq (map to_dense (run ci prog e)) (d_run prog (map to_dense e)).
+Proof. exact program_dense. Qed.
+
+(* ... read off entry by entry *)
+Theorem T01_program_entry : forall ci prog e x idx, valid_ci ci -> Forall (WF ci) e -> applicable_prog ci prog e ->
+  (x < length (run ci prog e))%nat ->
+  map ind_len (legs (get (run ci prog e) x)) = fst (dget (d_run prog (map to_dense e)) x) /\
+  (length idx = rank (get (run ci prog e) x) ->
+   to_ndarray (get (run ci prog e) x) idx = snd (dget (d_run prog (map to_dense e)) x) idx).
+Proof. exact program_dense_entry. Qed.
 
 (* labels: _split_leg_label(_combine_leg_labels(ls), len(ls)) = ls with '?#' -> None, nested parentheses of any depth *)
 Theorem T01_split_combine_labels : forall ls, ls <> [] -> Forall wf_label ls ->
@@ -199,6 +220,22 @@ Example T01_example_label_tree :
   conj_label (render ex_tree) = ["("; "a"; "*"; "."; "("; "b"; "."; "c"; "*"; ")"; ")"]%char.
 Proof. vm_compute. repeat split; reflexivity. Qed.
 
+(* non-vacuity of T01_program: the 9-step history of Proofs/TensorProgEx.v (transpose, in-place conj, tensordot, addition with aliased
+   operands, outer with an earlier result, take_slice, in-place iswapaxes, gauge_total_charge flipping a leg, in-place scaling by 0)
+   on a U(1) x Z_2 tensor: entries of the sliced and swapped rank-3 result and of the re-gauged matrix computed block-sparse and by
+   the dense interpreter, the re-gauged legs, and the shapes of the dense run *)
+Example T01_example_program :
+  valid_ci ep_ci /\ Forall (WF ep_ci) [ep_a] /\ applicable_prog ep_ci ep_prog [ep_a] /\
+  map (to_ndarray (get (run ep_ci ep_prog [ep_a]) 5)) [[2; 1; 1]; [2; 2; 2]; [1; 0; 0]]%nat = [(22, 4); (40, 20); (0, 0)] /\
+  map (snd (dget (d_run ep_prog (map to_dense [ep_a])) 5)) [[2; 1; 1]; [2; 2; 2]; [1; 0; 0]]%nat = [(22, 4); (40, 20); (0, 0)] /\
+  map (to_ndarray (get (run ep_ci ep_prog [ep_a]) 6)) [[0; 0]; [1; 2]; [2; 2]]%nat = [(13, 0); (7, -1); (10, 0)] /\
+  map (snd (dget (d_run ep_prog (map to_dense [ep_a])) 6)) [[0; 0]; [1; 2]; [2; 2]]%nat = [(13, 0); (7, -1); (10, 0)] /\
+  map (fun l => (bch l, qc l)) (legs (get (run ep_ci ep_prog [ep_a]) 6)) = [([[1; 1]; [2; 0]], 1); ([[4; 0]; [3; 1]], 1)] /\
+  map fst (d_run ep_prog (map to_dense [ep_a])) = [[3; 3; 3]; [3; 3]; [3; 3]; [3; 3]; [3; 3; 3; 3]; [3; 3; 3]; [3; 3]]%nat.
+Proof. split; [exact ep_valid|]. split; [exact ep_a_wf|]. split; [exact ep_applicable|]. exact (proj2 ep_result). Qed.
+
+Print Assumptions T01_program.
+Print Assumptions T01_program_entry.
 Print Assumptions T01_transpose.
 Print Assumptions T01_conj.
 Print Assumptions T01_scale.
